@@ -242,7 +242,7 @@ const HIST_OPS: [&str; 6] = ["update(1)", "update(70)", "reverse", "reset", "fin
 
 pub fn spaces(tier: Tier) -> Vec<Space> {
     let mut v = vec![];
-    let maxlen: u64 = if tier.is_thorough() { 4200 } else { 1100 };
+    let maxlen: u64 = if tier.is_thorough() { 20000 } else { 1100 };
     // 1. one-shot digests: hash × every length 0..=maxlen × 4 patterns
     v.push(Space::new("oneshot", 6 * (maxlen + 1) * 4, move |case, acc| {
         let c = crate::engine::coords(case.idx, &[6, maxlen + 1, 4]);
@@ -263,6 +263,20 @@ pub fn spaces(tier: Tier) -> Vec<Space> {
         let lib = guard(|| lib_hmac(h, &key, &msg));
         cmp(acc, case, &format!("fn=hmac-{}", h.name()), json!({"hash": h.name(), "key": hx(&key), "msg": hx(&msg)}), lib, &want);
     }));
+    // 2a. HMAC key-length sweep: every key length 0..=N (both block sizes and their neighbours are interior points), 6 variants,
+    // three message lengths
+    {
+        let maxk: u64 = if tier.is_thorough() { 1100 } else { 300 };
+        v.push(Space::new("hmac-key-length-sweep", 6 * (maxk + 1) * 3, move |case, acc| {
+            let c = crate::engine::coords(case.idx, &[6, maxk + 1, 3]);
+            let h = rh::ALL[c[0] as usize];
+            let key = pattern(2, c[1] as usize);
+            let msg = pattern(4, [0usize, 13, 200][c[2] as usize]);
+            let want = rh::hmac(h, &key, &msg);
+            let lib = guard(|| lib_hmac(h, &key, &msg));
+            cmp(acc, case, &format!("fn=hmac-{}", h.name()), json!({"hash": h.name(), "key_len": key.len(), "msg_len": msg.len()}), lib, &want);
+        }));
+    }
     // 3. PBKDF2
     let hs = [(H::Sha1, 0u8), (H::Sha256, 1), (H::Sha512, 2)];
     v.push(Space::new("pbkdf2", 3 * 5 * 5 * 5 * 12, move |case, acc| {
@@ -300,6 +314,25 @@ pub fn spaces(tier: Tier) -> Vec<Space> {
             &want,
         );
     }));
+    // 3a. PBKDF2 password- and salt-length sweeps: every length 0..=N, 3 hashes, iterations {1, 3}, two output lengths
+    {
+        let maxp: u64 = if tier.is_thorough() { 600 } else { 300 };
+        v.push(Space::new("pbkdf2-length-sweep", 3 * (maxp + 1) * 2 * 2 * 2, move |case, acc| {
+            let c = crate::engine::coords(case.idx, &[3, maxp + 1, 2, 2, 2]);
+            let (h, code) = hs[c[0] as usize];
+            let (pw, salt) = if c[2] == 0 { (pattern(2, c[1] as usize), pattern(5, 8)) } else { (pattern(2, 11), pattern(5, c[1] as usize)) };
+            let iters = [1u32, 3][c[3] as usize];
+            let outlen = [20usize, 65][c[4] as usize];
+            let want = rh::pbkdf2(h, &pw, &salt, iters, outlen);
+            let algo = match code {
+                0 => PBKDF2Hashes::SHA1,
+                1 => PBKDF2Hashes::SHA256,
+                _ => PBKDF2Hashes::SHA512,
+            };
+            let lib = guard(|| KDF::pbkdf2(&pw, Some(salt.clone()), algo, iters, outlen).get_hash().to_bytes());
+            cmp(acc, case, &format!("fn=pbkdf2-{}", h.name()), json!({"hash": h.name(), "password_len": pw.len(), "salt_len": salt.len(), "iterations": iters, "out_len": outlen}), lib, &want);
+        }));
+    }
     v.push(Space::new("pbkdf2-2048", 3, move |case, acc| {
         let (h, code) = hs[case.idx as usize];
         let pw = b"correct horse battery staple".to_vec();
@@ -314,7 +347,7 @@ pub fn spaces(tier: Tier) -> Vec<Space> {
         cmp(acc, case, &format!("fn=pbkdf2-{}", h.name()), json!({"hash": h.name(), "iterations": 2048}), lib, &want);
     }));
     // 4. all 2^(n-1) chunkings of inputs of length n<=12, each adapter, plain and reversed, finalize and finalize_reset+reuse
-    let maxn: u64 = if tier.is_thorough() { 14 } else { 12 };
+    let maxn: u64 = if tier.is_thorough() { 16 } else { 12 };
     let mut table: Vec<(u64, u64)> = vec![(0, 0)];
     for n in 1..=maxn {
         for mask in 0..(1u64 << (n - 1)) {
@@ -334,7 +367,7 @@ pub fn spaces(tier: Tier) -> Vec<Space> {
     // 4a. operation histories: every sequence of up to N operations over {update(1), update(70), reverse, reset,
     // finalize-and-reset, clone} on one adapter object, through three trait views, against the (bytes, flag) model
     {
-        let maxd: u32 = if tier.is_thorough() { 7 } else { 5 };
+        let maxd: u32 = if tier.is_thorough() { 8 } else { 5 };
         let mut offsets = vec![0u64];
         for k in 0..=maxd {
             offsets.push(offsets[k as usize] + 6u64.pow(k));
@@ -400,13 +433,10 @@ pub fn spaces(tier: Tier) -> Vec<Space> {
         }
     }
     if tier.is_thorough() {
-        let grid: Vec<usize> = vec![0, 1, 31, 32, 55, 56, 63, 64, 65, 119, 120, 127, 128, 129, 130];
-        for &i in &grid {
-            for &j in &grid {
-                for &k in &grid {
-                    if i <= j && j <= k {
-                        cuts.push(vec![i, j, k]);
-                    }
+        for i in 0..=l {
+            for j in i..=l {
+                for k in j..=l {
+                    cuts.push(vec![i, j, k]);
                 }
             }
         }
@@ -433,7 +463,7 @@ fn run(ctx: &Ctx) -> Report {
     let mut r = Report::new(
         "full cartesian products: 6 one-shot digests × every message length 0..=L × 4 byte patterns; 6 HMAC variants × 12 key lengths × 8 message lengths × 2 patterns; PBKDF2 3 hashes × password/salt lengths × iterations × 12 output lengths; all 2^(n-1) chunkings of every input length n<=N through each streaming adapter (plain/reversed, finalize and finalize_reset+reuse); every two-cut placement in a 130-byte input. Non-trivial = library call returned and was compared byte-for-byte with the reference (every case); cases are distinct by construction of the product.",
     );
-    r.bounds = json!({"oneshot_max_len": if ctx.tier.is_thorough() {4200} else {1100}, "long_message_lens": C13_LONG, "chunking_max_n": if ctx.tier.is_thorough() {14} else {12}, "hmac_key_lens": HMAC_KLEN, "hmac_msg_lens": HMAC_MLEN, "pbkdf2_iters": PB_ITERS, "pbkdf2_out_lens": PB_OUT, "deviation_bound": 0});
+    r.bounds = json!({"oneshot_max_len": if ctx.tier.is_thorough() {20000} else {1100}, "long_message_lens": C13_LONG, "chunking_max_n": if ctx.tier.is_thorough() {16} else {12}, "hmac_key_length_sweep": if ctx.tier.is_thorough() {1100} else {300}, "pbkdf2_password_length_sweep": if ctx.tier.is_thorough() {600} else {300}, "adapter_history_max_ops": if ctx.tier.is_thorough() {8} else {5}, "cuts130": if ctx.tier.is_thorough() {"every placement of two and of three cut points"} else {"every placement of two cut points"}, "hmac_key_lens": HMAC_KLEN, "hmac_msg_lens": HMAC_MLEN, "pbkdf2_iters": PB_ITERS, "pbkdf2_out_lens": PB_OUT, "deviation_bound": 0});
     r.assumptions.push("HMAC over the composite digests (SHA256d, HASH160) is RFC 2104 over the composite function with a 64-byte block".into());
     run_spaces(ctx, &mut r, spaces(ctx.tier));
     r
